@@ -590,4 +590,93 @@ def updateDir (w : World) (s : St) (path : Str) (o : Opts) : Except Err St :=
         | some _, some (.fault k) => .error (.os (.code k))
         | some _, some _ => .error (.os .ENOTDIR)
 
+-- ManifestRecursiveLoader.update_entry_for_path (one path) ------------------------------------------
+
+/-- the state of `update_entry_for_path(path, new_entry_type, hashes)` while it walks the Manifests -/
+structure PSt where
+  st : St
+  hadEntry : Bool := false
+  /-- `entries_to_remove` of the Manifest being walked (the values the queued objects have) -/
+  toRemove : List Entry := []
+
+/-- one entry of one Manifest applying to the path: an IGNORE covering the path breaks the contract (assertion);
+    the first entry for the path is refreshed - or queued for removal when the file is gone -, every further one
+    is a duplicate and queued for removal -/
+def upEntryStep (w : World) (path : Str) (hashes : Option (List Str)) (mp rel : Str) (acc : PSt) (ie : IEntry) :
+    Except Err PSt :=
+  match ie.2 with
+  | .ignore p => if pathStartsWith path (pjoin rel p) then .error (.internal .assertion) else .ok acc
+  | .timestamp _ => .ok acc
+  | .file .DIST _ _ _ => .ok acc
+  | fe =>
+    let full := pjoin rel fe.fullPath
+    if full != path then .ok acc
+    else if acc.hadEntry then .ok { acc with toRemove := acc.toRemove ++ [fe] }
+    else
+      match objAt w full with
+      | .error e => .error e
+      | .ok .absent => .ok { acc with toRemove := acc.toRemove ++ [fe], hadEntry := true }
+      | .ok ob =>
+        match refreshEntry ob full fe hashes acc.st.dev? none with
+        | .error e => .error e
+        | .ok (fe', _) => .ok { acc with st := (acc.st.setVal ie.1 fe').markUpdated mp, hadEntry := true }
+
+/-- `for e in entries_to_remove: m.entries.remove(e)` -/
+def upRemoveStep (mp : Str) (st : St) (x : Entry) : Except Err St :=
+  match st.removeFirstEq mp x with
+  | some st' => .ok st'
+  | none => .error (.internal .valueError)
+
+/-- the walk over one Manifest -/
+def upManifestStep (w : World) (path : Str) (hashes : Option (List Str)) (acc : PSt) (kdv : Str × Str × List Entry) :
+    Except Err PSt :=
+  match foldE (upEntryStep w path hashes kdv.1 kdv.2.1) { acc with toRemove := [] } (acc.st.entriesOf kdv.1) with
+  | .error e => .error e
+  | .ok a =>
+    if a.toRemove.isEmpty then .ok a
+    else
+      match foldE (upRemoveStep kdv.1) a.st a.toRemove with
+      | .error e => .error e
+      | .ok st' => .ok { a with st := st'.markUpdated kdv.1 }
+
+/-- `ManifestRecursiveLoader.update_entry_for_path(path, new_entry_type, hashes)`: refresh the entry of one path
+    (the most specific one), drop its other entries - all of them when the file is gone -, or add an entry of the
+    given type to the most specific Manifest when the path has none -/
+def updateEntryForPath (w : World) (s : St) (path : Str) (newType : FTag) (hashes : Option (List Str)) : Except Err St :=
+  match s.load w path false true with
+  | .error e => .error e
+  | .ok s1 =>
+    match foldE (upManifestStep w path hashes) ({ st := s1 } : PSt) (iterManifests s1.plain path false) with
+    | .error e => .error e
+    | .ok a =>
+      if a.hadEntry then .ok a.st
+      else
+        match hashes with
+        | none => .error (.internal .assertion)
+        | some hs =>
+          match iterManifests a.st.plain path false with
+          | [] => .ok a.st
+          | kdv :: _ =>
+            if newType == .DIST then .error (.internal .assertion)
+            else
+              match relpath? path kdv.2.1 with
+              | none => .error .abstain
+              | some np =>
+                let np? : Except Err Str :=
+                  if newType == .AUX then
+                    (if !pathInsideDir np [102, 105, 108, 101, 115] then .error (.internal .assertion)
+                     else match relpath? np [102, 105, 108, 101, 115] with
+                       | none => .error .abstain
+                       | some q => .ok q)
+                  else .ok np
+                match np? with
+                | .error e => .error e
+                | .ok np' =>
+                  match objAt w path with
+                  | .error e => .error e
+                  | .ok ob =>
+                    match refreshEntry ob path (.file newType np' 0 []) (some hs) a.st.dev? none with
+                    | .error e => .error e
+                    | .ok (fe', _) => .ok ((a.st.append kdv.1 fe').markUpdated kdv.1)
+
 end Gemato.U
